@@ -512,3 +512,45 @@ def mutation_while_iterating(func_node):
         if not safe:
             res.append((loop, x, what))
     return res
+
+
+def loop_progress(chk, rule, f, is_progress, label, implied_nonempty=True):
+    """PROGRESS: every trip round a `while` loop of a stream parser makes progress: each path from the loop head back to
+    the head passes a node for which `is_progress(node)` holds (the buffer is cut / the mirrored length drops).  A path
+    that goes round without consuming input spins for ever on the same bytes."""
+    cfg = f.cfg()
+    heads = [h for h in cfg.nodes if h.kind == "join" and isinstance(h.ast, ast.While)]
+    if not heads:
+        chk.missing(rule, "%s loops over the buffered input" % label, f)
+        return
+    prog = [n.id for n in cfg.nodes if n.kind == "stmt" and is_progress(n)]
+    if implied_nonempty:
+        # an inner `while X > a` directly inside an outer `while X > b` with b >= a runs at least once per entry: its
+        # zero-trip exit is infeasible, so reaching its false branch implies the body (and its progress) was executed
+        def gt(test):
+            if isinstance(test, ast.Compare) and len(test.ops) == 1 and isinstance(test.ops[0], ast.Gt) and isinstance(test.left, ast.Name) \
+                    and isinstance(test.comparators[0], ast.Constant) and isinstance(test.comparators[0].value, (int, float)):
+                return test.left.id, test.comparators[0].value
+            return None
+        whiles = [h.ast for h in heads]
+        for outer in whiles:
+            for inner in whiles:
+                if inner is outer or not any(x is inner for st in outer.body for x in ast.walk(st)):
+                    continue
+                a, b = gt(inner.test), gt(outer.test)
+                if a and b and a[0] == b[0] and b[1] >= a[1]:
+                    # no store to the variable between the outer test and the inner loop on the way in
+                    prog += [br.id for br in cfg.nodes if br.kind == "branch" and br.value is False and src(br.ast) == src(inner.test)
+                             and br.lineno == inner.lineno]
+    for h in heads:
+        # successors inside the loop body: start from the true-branch of the loop test (or the head itself for `while True`)
+        starts = [b.id for b in cfg.nodes if b.kind == "branch" and getattr(b, "owner", None) is h.ast and b.value is True]
+        if not starts:
+            starts = [s for s in cfg.succs(h.id, True)]
+        w = None
+        for st in starts:
+            w = w or cfg.path_avoiding(st, [h.id], prog, ignore_exc=True, include_start=False)
+        chk.ob(rule, "%s: every trip round the loop at line %s consumes input (or leaves the loop)" % (label, h.lineno), w is None and bool(prog),
+               f.where(h.ast), path=cfg.fmt_path(w, f.relpath) if w else None,
+               detail="a round that consumes nothing repeats for ever on the same bytes", construct=f.ident,
+               text="loop without progress at while `%s`" % short(h.ast.test, 40))
